@@ -28,7 +28,15 @@ def make_spec(prop, seed, tier):
 
 
 def run_spec(prop, spec, replay=None, lenient=False):
-    res = harness.run_sim(spec, prop.program(spec), replay=replay, lenient=lenient)
+    program = prop.program(spec)
+    if getattr(prop, "track_states", False):
+        from .props.execfam import exec_state
+        inner = program
+
+        def program(run, inner=inner):
+            run.state_fn = exec_state
+            inner(run)
+    res = harness.run_sim(spec, program, replay=replay, lenient=lenient)
     if res.harness_error or res.outcome in ("harness_error", "replay_divergence"):
         return res, []
     viols = prop.check(res)
@@ -45,7 +53,7 @@ def summarize(prop, spec, res, viols, want_sample=False):
         line=res.run.line_preempts, schedsig=s.schedsig, procs=len(k.procs),
         faults=dict(k.fault_counts), nfault=len(res.run.fault_log),
         probes=dict(k.probes), nontrivial=bool(prop.nontrivial(res)),
-        features=prop.features(res), states=sorted(res.run.states)[:200],
+        features=prop.features(res), states=sorted(res.run.states, key=str)[:400],
         harness_error=res.harness_error,
         viol=[dict(signature=v["signature"], message=v["message"][:600]) for v in viols],
     )
